@@ -24,6 +24,8 @@ def run(ctx):
     B.b5_bookkeeping(ctx)
     B.b6_base_cases(ctx)
     B.b7_equivalence_steps(ctx)
+    B.b13_leaf_on_codomain_side(ctx)
+    ctx.floor("B13", 1)
     B.b9_state_keyed_by_pairs(ctx)
     ctx.floor("B9", 2)
     J.j5_bijection_maps(ctx)
